@@ -174,11 +174,17 @@ var c12Dummy int
 
 // an interface variable as a C12 target: Interface(&v).Method("M"), configured through As(func literal) where the literal
 // is written anew in every chain (goom's documented idiom), so consecutive chains pass DIFFERENT function values
-type c12Iface interface{ M(a int) int }
+type c12Iface interface {
+	M(a int) int
+	N(a int) int
+}
 type c12Real struct{}
 
 //go:noinline
 func (c12Real) M(a int) int { return -7700 - a }
+
+//go:noinline
+func (c12Real) N(a int) int { return -7800 - a }
 
 var c12IV c12Iface = c12Real{}
 
@@ -264,6 +270,9 @@ func stubC12(c *common, rng *hxlib.Rng, out *hxlib.Out) int {
 		// a method of an interface variable
 		{func(b *mocker.Builder) mocker.ExportedMocker { return c12AdaptI(b.Interface(&c12IV).Method("M")) }, func(a int) int { return c12IV.M(a) },
 			func(k int) interface{} { return func(a int) int { return 500 + k } }, -7700, false},
+		// a SECOND method of the same interface variable (both methods live in one shared context)
+		{func(b *mocker.Builder) mocker.ExportedMocker { return c12AdaptI(b.Interface(&c12IV).Method("N")) }, func(a int) int { return c12IV.N(a) },
+			func(k int) interface{} { return func(a int) int { return 500 + k } }, -7800, false},
 	}
 	pkgs := []string{"github.com/tencent/goom/test", "some/other/pkg", "x"}
 	// journal: every operation is written (unbuffered) BEFORE it is executed and probed, so that a fatal crash
@@ -283,6 +292,7 @@ func stubC12(c *common, rng *hxlib.Rng, out *hxlib.Out) int {
 		}
 		owner[3] = owner[2] // the methods of one struct go through the same builder (shared struct-level cache)
 		owner[4] = owner[2]
+		owner[9] = owner[8] // the methods of one interface variable go through the same builder (one context per builder and variable)
 		var handles []mocker.ExportedMocker
 		var htgt []int
 		var hstale []bool
@@ -323,6 +333,12 @@ func stubC12(c *common, rng *hxlib.Rng, out *hxlib.Out) int {
 				nextR++
 			case k < 17:
 				op = c12Op{K: 4, A: live[rng.Intn(len(live))]}
+				// Cancel of an interface-method mocker cancels the context shared by every method of that variable (goom's
+				// documented granularity): issue it only while the sibling method was never looked up in this history
+				if t := htgt[op.A]; (t == 8 && latest[9] >= 0) || (t == 9 && latest[8] >= 0) {
+					op = c12Op{K: 2, A: op.A, B: nextR}
+					nextR++
+				}
 			case k < 18:
 				op = c12Op{K: 5, A: rng.Intn(nb)}
 			case k < 19:
@@ -346,6 +362,13 @@ func stubC12(c *common, rng *hxlib.Rng, out *hxlib.Out) int {
 					htgt = append(htgt, op.B)
 					hstale = append(hstale, false)
 					latest[op.B] = len(handles) - 1
+					// the two interface methods share ONE cache entry per builder (the variable): a lookup of either method after a
+					// Cancel/Reset supersedes the cancelled mocker of BOTH, so the sibling's old handle is stale from here on
+					if op.B == 8 || op.B == 9 {
+						if sib := 17 - op.B; latest[sib] >= 0 && handles[latest[sib]].Canceled() {
+							latest[sib] = -1
+						}
+					}
 				case 1:
 					handles[op.A].Apply(tgts[htgt[op.A]].cb(op.B))
 				case 2:
